@@ -1,8 +1,8 @@
 package rules
 
 import (
-	"go/constant"
 	"fmt"
+	"go/constant"
 	"go/token"
 
 	"gzverify/px"
